@@ -48,11 +48,14 @@ pub(crate) enum Ev {
     /// the next transactions-proof answer of the peer lists one requested hash as missing as
     /// often as hashes were requested (right count, but the other hashes are not covered)
     DeliverDupMissing(usize),
+    /// the peer's SECOND pending answer arrives before its first one (answers to two different
+    /// outstanding requests overtake each other)
+    DeliverSecond(usize),
 }
 
 const REFRESH: [u64; 2] = [0, 60_001];
-const TX_NAMES: [&str; 4] = ["X(indexed)", "Y(main#12)", "Z(unknown)", "YF(fork#12)"];
-const HD_NAMES: [&str; 4] = ["H(#6)", "H12(main)", "H12F(fork)", "HZ(unknown)"];
+const TX_NAMES: [&str; 5] = ["X(indexed)", "Y(main#12)", "Z(unknown)", "YF(fork#12)", "W(main#13)"];
+const HD_NAMES: [&str; 5] = ["H(#6)", "H12(main)", "H12F(fork)", "HZ(unknown)", "H13(main)"];
 
 /// 0 = never asked, 1 = added, 2 = fetching, 3 = fetched, 4 = not_found
 type St = u8;
@@ -81,8 +84,11 @@ pub(crate) struct FetchModel<'a> {
     cfg: ClientCfg,
     txs: Vec<packed::Byte32>,
     hds: Vec<packed::Byte32>,
-    /// start with a transaction fetch and a header fetch already in flight
-    start_in_flight: bool,
+    /// 0: nothing in flight; 1: start with two transaction fetches and a header fetch in flight;
+    /// 2 / 3: two headers of neighbouring blocks (main #12, #13) in ONE blocks-proof request and a
+    /// transaction of #12 (2) or of #13 (3) in a transactions-proof request (whose answer also
+    /// stores the block's header, whatever the order of the hashes in the blocks-proof request)
+    start_in_flight: u8,
     /// indices of the transactions / headers the user may ask for (quick: a subset)
     ask_txs: Vec<usize>,
     ask_hds: Vec<usize>,
@@ -287,11 +293,17 @@ impl<'a> Model for FetchModel<'a> {
         sim.connect(1);
         sim.connect(2);
         sim.converge(60);
-        if self.start_in_flight {
+        if self.start_in_flight == 1 {
             // two transactions in one request (Y is on the chain, YF only on the fork) + a header
             self.call_tx(&mut sim, 1);
             self.call_tx(&mut sim, 3);
             self.call_hd(&mut sim, 0);
+            sim.cm().tick_lc(1);
+            sim.pump_out();
+        } else if self.start_in_flight >= 2 {
+            self.call_hd(&mut sim, 1);
+            self.call_hd(&mut sim, 4);
+            self.call_tx(&mut sim, if self.start_in_flight == 2 { 1 } else { 4 });
             sim.cm().tick_lc(1);
             sim.pump_out();
         }
@@ -320,6 +332,9 @@ impl<'a> Model for FetchModel<'a> {
         for p in 1..=2usize {
             if sim.queue.iter().any(|m| m.peer == p) {
                 v.push(Ev::Deliver(p));
+            }
+            if sim.queue.iter().filter(|m| m.peer == p).count() >= 2 {
+                v.push(Ev::DeliverSecond(p));
             }
             let connected = sim.world.peer(p).connected;
             if connected && t.disconnects < 1 {
@@ -371,6 +386,15 @@ impl<'a> Model for FetchModel<'a> {
             }
             Ev::Deliver(p) => {
                 self.deliver_front_of(sim, *p);
+            }
+            Ev::DeliverSecond(p) => {
+                if let Some(i) = sim.queue.iter().enumerate().filter(|(_, m)| m.peer == *p).map(|(i, _)| i).nth(1) {
+                    let m = sim.queue.remove(i).unwrap();
+                    if m.proto == Proto::LightClient {
+                        self.note_missing(&m.data);
+                    }
+                    sim.deliver_msg(m);
+                }
             }
             Ev::Disconnect(p) => {
                 self.track.borrow_mut().disconnects += 1;
@@ -656,7 +680,7 @@ fn build_chains(env: &Env) -> (Chain, Chain) {
 /// of main#12 is fetched. Every committed answer must name a stored block whose transactions
 /// root commits to the transaction - the per-height slot must point to main#12 again.
 fn switch_back_pass(env: &Env, report: &mut Report) {
-    let mut m = make_model(env, false, true);
+    let mut m = make_model(env, 0, true);
     m.cfg.last_n = 10;
     // (no check point may become final inside the forked range: a reorganisation below a final
     // check point is outside every property - in production the interval is 2000, last-N 100)
@@ -732,6 +756,7 @@ fn parse_ev(s: &str) -> Option<Ev> {
         "FetchTick" => Ev::FetchTick,
         "Refresh" => Ev::Refresh(*a.first()? as usize),
         "Deliver" => Ev::Deliver(*a.first()? as usize),
+        "DeliverSecond" => Ev::DeliverSecond(*a.first()? as usize),
         "Disconnect" => Ev::Disconnect(*a.first()? as usize),
         "Connect" => Ev::Connect(*a.first()? as usize),
         "SilentSwitch" => Ev::SilentSwitch(*a.first()? as usize),
@@ -762,17 +787,24 @@ fn signature(hist: &[Ev], class: &str) -> String {
     format!("{}/{}", class, kinds.into_iter().collect::<Vec<_>>().join("+"))
 }
 
-fn make_model<'a>(env: &'a Env, start_in_flight: bool, all_calls: bool) -> FetchModel<'a> {
+const START_NAMES: [&str; 4] = ["idle", "in-flight", "two-headers+tx12", "two-headers+tx13"];
+
+fn start_of(config: &str) -> u8 {
+    START_NAMES.iter().position(|n| *n == config).unwrap_or(0) as u8
+}
+
+fn make_model<'a>(env: &'a Env, start_in_flight: u8, all_calls: bool) -> FetchModel<'a> {
     let (main, fork) = build_chains(env);
     let x = main.blocks[7].transactions()[1].hash();
     let y = main.blocks[12].transactions()[1].hash();
     let z = crate::verif::txlib::build_tx(&[], &[packed::OutPoint::new(x.clone(), 7)], &[crate::verif::txlib::OutSpec::lock(&env.scripts.c, 1)], 0xbad).hash();
     let yf = fork.blocks[12].transactions()[0].hash();
     let hz = packed::Byte32::new_unchecked(vec![0x5au8; 32].into());
+    let w = main.blocks[13].transactions()[1].hash();
     FetchModel {
         env,
-        txs: vec![x, y, z, yf],
-        hds: vec![main.blocks[6].hash(), main.blocks[12].hash(), fork.blocks[12].hash(), hz],
+        txs: vec![x, y, z, yf, w],
+        hds: vec![main.blocks[6].hash(), main.blocks[12].hash(), fork.blocks[12].hash(), hz, main.blocks[13].hash()],
         main,
         fork,
         cfg: ClientCfg { last_n: 3, max_outbound: 2, cp_interval: 4, ..Default::default() },
@@ -788,7 +820,7 @@ pub(crate) fn run(opts: &Opts, report: &mut Report) {
     // a recorded event list is replayed directly
     if let Some((config, events)) = opts.replay.as_deref().and_then(bfs::read_replay) {
         let env = Env::dummy();
-        let m = make_model(&env, config == "in-flight", true);
+        let m = make_model(&env, start_of(&config), true);
         let evs: Vec<Ev> = events.iter().filter_map(|e| parse_ev(e)).collect();
         let mut rep = |hist: &[Ev], class: String, detail: String| {
             if !class.starts_with("~not-judged") {
@@ -798,8 +830,8 @@ pub(crate) fn run(opts: &Opts, report: &mut Report) {
         bfs::replay_one(&m, &evs, &mut rep);
         return;
     }
-    // (start with fetches in flight, max depth)
-    let configs: Vec<(bool, usize)> = if thorough { vec![(false, 4), (true, 4)] } else { vec![(false, 3), (true, 3)] };
+    // (start state, max depth)
+    let configs: Vec<(u8, usize)> = if thorough { vec![(0, 4), (1, 4), (2, 3), (3, 3)] } else { vec![(0, 3), (1, 3), (2, 2), (3, 2)] };
     const SHARDS: usize = 16;
     let n_items = configs.len() * SHARDS + 1;
     let worker = crate::verif::props::shard::run("C16", opts, report, n_items, 16, |item, report| {
@@ -810,24 +842,7 @@ pub(crate) fn run(opts: &Opts, report: &mut Report) {
         }
         let (start_in_flight, max_depth) = configs[item / SHARDS];
         let shard = item % SHARDS;
-        let (main, fork) = build_chains(&env);
-        let x = main.blocks[7].transactions()[1].hash();
-        let y = main.blocks[12].transactions()[1].hash();
-        let z = crate::verif::txlib::build_tx(&[], &[packed::OutPoint::new(x.clone(), 7)], &[crate::verif::txlib::OutSpec::lock(&env.scripts.c, 1)], 0xbad).hash();
-        let yf = fork.blocks[12].transactions()[0].hash();
-        let hz = packed::Byte32::new_unchecked(vec![0x5au8; 32].into());
-        let m = FetchModel {
-            env: &env,
-            txs: vec![x, y, z, yf],
-            hds: vec![main.blocks[6].hash(), main.blocks[12].hash(), fork.blocks[12].hash(), hz],
-            main,
-            fork,
-            cfg: ClientCfg { last_n: 3, max_outbound: 2, cp_interval: 4, ..Default::default() },
-            start_in_flight,
-            ask_txs: if thorough { vec![0, 1, 2, 3] } else { vec![1, 2] },
-            ask_hds: if thorough { vec![0, 1, 2, 3] } else { vec![0, 3] },
-            track: RefCell::new(Track::default()),
-        };
+        let m = make_model(&env, start_in_flight, thorough);
         let mut st0 = bfs::Stats::default();
         let all_roots = bfs::roots(&m, 2, &mut st0);
         let mine: Vec<Vec<Ev>> = all_roots.iter().enumerate().filter(|(i, _)| i % SHARDS == shard).map(|(_, h)| h.clone()).collect();
@@ -838,7 +853,7 @@ pub(crate) fn run(opts: &Opts, report: &mut Report) {
         } else {
             vec![]
         };
-        let name = if start_in_flight { "in-flight" } else { "idle" };
+        let name = START_NAMES[start_in_flight as usize];
         let mut not_judged = 0u64;
         let stats = {
             let mut rep = |hist: &[Ev], class: String, detail: String| {
@@ -883,7 +898,7 @@ pub(crate) fn run(opts: &Opts, report: &mut Report) {
 #[allow(dead_code)]
 pub(crate) fn debug_case() {
     let env = Env::dummy();
-    let m = make_model(&env, std::env::var("C16_INFLIGHT").is_ok(), true);
+    let m = make_model(&env, std::env::var("C16_INFLIGHT").ok().and_then(|x| x.parse().ok()).unwrap_or(0), true);
     let evs: Vec<Ev> = std::env::var("C16_EVENTS").unwrap_or_default().split(';').filter(|x| !x.trim().is_empty()).filter_map(parse_ev).collect();
     let mut sim = m.init(None);
     sim.record_trace = true;
